@@ -353,3 +353,9 @@ func (c *ChunkReader) Read(p []byte) (int, error) {
 	}
 	return n, nil
 }
+
+// LenReader is a ChunkReader that also reports how many bytes are left, like strings.Reader and bytes.Buffer do.
+type LenReader struct{ *ChunkReader }
+
+// Len returns the number of bytes not yet delivered.
+func (l LenReader) Len() int { return len(l.Data) - l.pos }
